@@ -138,10 +138,12 @@ Proof.
       assert (Hv : c - 65536 < 1048576) by lia.
       assert (Hq : (c - 65536) / 1024 < 1024) by (apply N.div_lt_upper_bound; lia).
       assert (Hm : (c - 65536) mod 1024 < 1024) by (apply N.mod_lt; lia).
+      pose proof (N.div_mod (c - 65536) 1024) as Hdm.
+      set (q := (c - 65536) / 1024) in *. set (m := (c - 65536) mod 1024) in *.
       rewrite !uesc_eq. cbn [app].
-      erewrite scan_pair;
+      rewrite (scan_pair acc _ _ _ _ _ _ _ _ r (55296 + q) (56320 + m));
         [ | apply hex4val_hex4; lia | lia | apply hex4val_hex4; lia | lia ].
-      f_equal. f_equal. pose proof (N.div_mod (c - 65536) 1024). lia.
+      f_equal. f_equal. lia.
 Qed.
 
 Lemma scan_flat s : forall acc r,
